@@ -122,7 +122,7 @@ def eval_block(block, acc):
         first = block[1]
         for seq in [(first,)] + [(first, t) for t in ALPHABET]:
             data = streams.seq_bytes(seq)
-            for kind in ("nonseekable", "minimal"):
+            for kind in ("nonseekable", "minimal", "buffered"):
                 for cfg in CFGS[:2]:
                     judge_stream(data, cfg, clean_ends_of(seq, cfg), acc, {"stream": data.hex(), "tokens": list(seq), "clean_ends": clean_ends_of(seq, cfg)}, kind)
         return
@@ -185,7 +185,7 @@ def run_tier(tier, t0):
             f"over {len(ALPHABET)} tokens (frames, noise, fragments)" + ("" if q else f" and of every sequence of 4 tokens over a reduced alphabet of {len(ALPHA4)}") + f" x {len(CFGS)} configurations (ignore / log+handler x validate 0/1). "
             "distinct_nontrivial = distinct (items of uncut run, items of cut run) pairs"
         ),
-        assumptions=["io.BytesIO(S[:k]) models a stream that ends after k bytes; token sequences of <= 2 are also read through a pipe-like stream (tell/seek raise) and a minimal read/readline-only object", "socket ring: clean sequences of <= 3 accepted frames through a socket whose peer closes after k bytes, for every k, x (recv chunk, bufsize) in (1,4),(5,8),(16,16),(7,64),(64,32),(4096,4096)", "parsed items compared by type, str() and serialize()"],
+        assumptions=["io.BytesIO(S[:k]) models a stream that ends after k bytes; token sequences of <= 2 are also read through a pipe-like stream (tell/seek raise) a minimal read/readline-only object and a BufferedReader", "socket ring: clean sequences of <= 3 accepted frames through a socket whose peer closes after k bytes, for every k, x (recv chunk, bufsize) in (1,4),(5,8),(16,16),(7,64),(64,32),(4096,4096)", "parsed items compared by type, str() and serialize()"],
         vacuity=[
             ("some cut run delivered fewer items than the uncut run", any(a > b for (a, b) in acc.outcomes)),
             ("clean sequences were explored", acc.extra["clean_sequences"] > 0),
